@@ -100,7 +100,7 @@ CLAIMS.update({
           "C03 workflow records, python and shell tasks x worker/submitter configurations enumerated by TLC (Shipping_Gen: plugin x by name/class/instance x parameter set x caches x audit x max_concurrent): projection (every scalar worker parameter, pool size) before/after cloudpickle in another interpreter, outputs of the shipped run, result read back, reference run.",
           "Thin use of TLA+ (one action + a configuration generator); batch-system workers are shipped and projected, not run.", "6/C29"),
  "C30": C("model_checking", "WfConstructCache.tla M1 (Transparent, NoLeak) + every TLC history replayed in one interpreter and compared with fresh constructions",
-          "Histories of construct(w, inputs, lazy)/run over two definitions (one value-dependent), three vectors, every lazy set; projection of each returned workflow equals a fresh construction's; no shared node objects between different constructions.",
+          "Histories of construct(w, inputs, lazy)/run over two definitions (one value-dependent), three vectors, every lazy set, and over a definition with a file input given the same file at two paths (as-built switch KeyOnContentOnly shows TLC the leak); projection of each returned workflow equals a fresh construction's; no shared node objects between different constructions.",
           "Usage assumption made explicit by TLC: branch inputs are never lazy.", "6/C30"),
  "C35": C("fault_enumeration", "JobProtocol.tla with exception injection (M1, intended vs as-built switch); exception raised from every hook point of the real code; traces validated against both; hook counts",
           "CwdRestored, InfoRemoved, DirHasJobAndResult, TaskHooksOncePerExecution; injected runs accepted by the intended design or exactly by the as-built switch within the recorded class.",
